@@ -35,12 +35,40 @@ def gen_frame(seed, cooldown=None, scenario=None, min_pre=5):
         c = sc * (10 + rng.gauss(0, 1)) + (sc * rng.choice([6.0, 12.0]) if (grp == 2 and in_test) else 0.0)
       cost.append(round(c * 8) / 8)
     geos.append({'id': g + 1, 'group': grp, 'response': resp, 'cost': cost})
-  return {'seed': seed, 'n_pre': n_pre, 'n_test': n_test, 'n_cool': n_cool, 'geos': geos, 'scenario': scenario}
+  return {'seed': seed, 'n_pre': n_pre, 'n_test': n_test, 'n_cool': n_cool, 'geos': geos, 'scenario': scenario,
+          'custom_names': random.Random(seed * 41 + 1).random() < 0.3}
+
+
+NAMING = {'key_geo': 'market', 'key_date': 'day', 'key_period': 'phase', 'key_group': 'arm', 'key_response': 'sales',
+          'key_cost': 'spend', 'group_control': 7, 'group_treatment': 3, 'period_pre': 5, 'period_test': 6, 'period_cooldown': 9}
+
+
+def fit_kwargs(spec):
+  """Keyword arguments of fit() for a specification with custom column names and labels."""
+  return dict(NAMING) if spec.get('custom_names') else {}
+
+
+def apply_names(spec, df):
+  """Renames the columns / index and relabels groups and periods of a default-named frame."""
+  if not spec.get('custom_names'):
+    return df
+  n = NAMING
+  df = df.copy()
+  df['group'] = df['group'].map({1: n['group_control'], 2: n['group_treatment']}).fillna(df['group']).astype(int)
+  df['period'] = df['period'].map({0: n['period_pre'], 1: n['period_test'], 2: n['period_cooldown']}).fillna(df['period']).astype(int)
+  df = df.rename(columns={'geo': n['key_geo'], 'period': n['key_period'], 'group': n['key_group'], 'response': n['key_response'],
+                          'cost': n['key_cost']})
+  df.index.name = n['key_date']
+  return df
 
 
 def build_df(spec, shuffle=None, extra=False, split=False):
   """Long frame of a specification. extra: add an unassigned geo and rows of a foreign period;
   split: spread the first geo of each group over two geos with the same total."""
+  return apply_names(spec, build_df0(spec, shuffle, extra, split))
+
+
+def build_df0(spec, shuffle=None, extra=False, split=False):
   import pandas as pd
   t0 = pd.Timestamp('2022-01-03')
   recs = []
@@ -114,10 +142,10 @@ def fit_tbr(spec, target='response', use_cooldown=None, history=None, **frame_kw
   uc = spec['n_cool'] > 0 if use_cooldown is None else use_cooldown
   m = tbr.TBR(use_cooldown=uc)
   if history is not None:
-    m.fit(build_df(history), target)
+    m.fit(build_df(history), target if not history.get('custom_names') else NAMING['key_' + target], **fit_kwargs(history))
     m.causal_cumulative_distribution()
     m.summary(level=0.9, tails=1)
-  m.fit(build_df(spec, **frame_kw), target)
+  m.fit(build_df(spec, **frame_kw), target if not spec.get('custom_names') else NAMING['key_' + target], **fit_kwargs(spec))
   return m
 
 
